@@ -182,6 +182,15 @@ def hashcons_check(tier, seed):
             elif (c.bv_width(), c.bv_unsigned_value(), c.constant_value(), c.bv_signed_value()) != (w, u, u, sv):
                 viol.append({"key": "bv-constant-accessors", "value": sv, "width": w,
                              "got": [c.bv_width(), c.bv_unsigned_value(), c.constant_value(), c.bv_signed_value()]})
+    # real constants from floats: the exact binary fraction, one object with the Fraction spelling
+    from fractions import Fraction as _F
+    for fv in (0.1, 1.2, 2.0 ** -30, 0.5, 3.0, -0.3, 1e-7):
+        if viol:
+            break
+        n += 1
+        c = m.Real(fv)
+        if c.constant_value() != _F(fv) or c is not m.Real(_F(fv)):
+            viol.append({"key": "real-constant-from-float", "float": repr(fv), "value": str(c.constant_value()), "exact": str(_F(fv))})
     for t in range(trials if not viol else 0):
         try:
             f = g.term(rng.choice([BOOL, BOOL, INT, REAL, BVType(3), ArrayType(INT, INT)]), rng.randint(1, 4))
